@@ -171,7 +171,8 @@ def template_case(chk, i):
     body = []
     k = 0
     extras = ["", "char tail;", "T w[3];", "int *p;"]
-    shape = rng.choice(["global", "global", "same-name-in-namespaces", "namespaced-arguments"])
+    shape = rng.choice(["global", "global", "same-name-in-namespaces", "namespaced-arguments", "opaque-arguments"])
+    oflags = []
     if shape == "global":
         for n in range(rng.randint(1, 3)):
             src += TPL.format(n=n, extra=rng.choice(extras))
@@ -193,6 +194,16 @@ def template_case(chk, i):
                 body.append("%s::W0<%s> f%d;" % (ns_, a, k))
                 uses.append(("%s::W0<%s>" % (ns_, a), "f%d" % k))
                 k += 1
+    elif shape == "opaque-arguments":
+        # instantiations whose ARGUMENT is an opaque type (by option, or because bindgen cannot represent it): the instantiation itself is an
+        # ordinary generic struct and keeps its size / alignment assertions
+        src += TPL.format(n=0, extra=rng.choice(extras))
+        src += "struct Payload { int a; char b; };\nstruct Wide { long long x; char y; };\nstruct Odd { int a : 3; long long b : 61; };\nunion UPay { double d; char c[3]; };\n"
+        for a in rng.sample(["Payload", "Wide", "Odd", "UPay", "Payload *"], rng.randint(2, 4)):
+            body.append("W0<%s> f%d;" % (a, k))
+            uses.append(("W0<%s>" % a, "f%d" % k))
+            k += 1
+        oflags = rng.choice([["--opaque-type", "Payload"], ["--opaque-type", "Payload", "--opaque-type", "Wide"], ["--opaque-type", "UPay"], []])
     else:
         # one template, arguments of the same name from different namespaces
         src += TPL.format(n=0, extra=rng.choice(extras))
@@ -214,7 +225,7 @@ def template_case(chk, i):
         return Verdict(INCONCLUSIVE, "c06-tpl-%d" % i, "clang table failed " + se[-200:])
     vals = [int(x.split()[-1]) for x in m.group(2).split(",")]
     o = os.path.join(d, "t%d.rs" % i)
-    tflags = (["--rust-target", "1.76"] if gate == "test" else []) + (["--enable-cxx-namespaces"] if nsflag else [])
+    tflags = (["--rust-target", "1.76"] if gate == "test" else []) + (["--enable-cxx-namespaces"] if nsflag else []) + oflags
     rc, so, se, _ = sh([build.BINDGEN, hdr] + tflags + ["-o", o, "--", "--target=" + t, "-ffreestanding", "-std=c++17"], timeout=120, cpu=100)
     if rc != 0:
         return Verdict(INCONCLUSIVE, "c06-tpl-%d" % i, "bindgen failed " + se[-200:])
